@@ -14,6 +14,8 @@ const PROPS = {
   d1: { decl: 'd1?: object', kind: 'val', lit: null },
   f: { decl: 'f?: () => number', kind: 'fn' },
   m: { decl: 'm?(): number', kind: 'fn' },
+  // a union with null: Vue *does* call function defaults here (type is not exactly Function)
+  fu: { decl: 'fu?: (() => number) | null', kind: 'fnUnion' },
 };
 const keyOf = (p) => PROPS[p].key || p;
 const plainKey = (p) => (/^[A-Za-z_$][\w$]*$/.test(keyOf(p)) ? keyOf(p) : `'${keyOf(p)}'`);
@@ -28,9 +30,9 @@ const FORMS = {
   call: { kinds: ['val'], src: (p) => `${plainKey(p)}: mkd()` },
   shorthand: { kinds: ['val'], only: ['d1'], src: () => 'd1' },
   getter: { kinds: ['val'], src: (p) => `get ${plainKey(p)}() { return d1; }` },
-  fnIdent: { kinds: ['fn'], src: (p) => `${plainKey(p)}: dfn` },
-  arrowValue: { kinds: ['fn'], src: (p) => `${plainKey(p)}: () => 7` },
-  fnExprValue: { kinds: ['fn'], src: (p) => `${plainKey(p)}: function () { return 8; }` },
+  fnIdent: { kinds: ['fn', 'fnUnion'], src: (p) => `${plainKey(p)}: dfn` },
+  arrowValue: { kinds: ['fn', 'fnUnion'], src: (p) => `${plainKey(p)}: () => 7` },
+  fnExprValue: { kinds: ['fn', 'fnUnion'], src: (p) => `${plainKey(p)}: function () { return 8; }` },
   method: { kinds: ['fn'], src: (p) => `${plainKey(p)}() { return 9; }` },
   computedMethod: { kinds: ['fn'], src: (p) => `['${keyOf(p)}']() { return 10; }` },
   asyncMethod: { kinds: ['fn'], src: (p) => `async ${plainKey(p)}() { return 11; }` },
@@ -102,8 +104,13 @@ function judge(c, resps) {
   for (const p of c.props) {
     const k = keyOf(p);
     const has = Object.prototype.hasOwnProperty.call(W, k);
-    const expected = has ? show(W[k], names) : '«none»';
     const opt = props[k];
+    // not statically analysable: "combined through Vue's mergeDefaults so that the same defaults apply" - what
+    // applies is then Vue's own rule on the written value (a function default of a prop whose type is not exactly
+    // Function is a factory for Vue, whoever wrote it)
+    const dynamicCase = (c.whole && c.whole !== 'none') || c.forms.some((f) => FORMS[f].dynamic);
+    const written = has ? (dynamicCase && opt ? resolved({ type: opt.type, default: W[k] }) : W[k]) : undefined;
+    const expected = has ? show(written, names) : '«none»';
     let got;
     if (!opt) got = '«prop missing»';
     else {
@@ -111,7 +118,7 @@ function judge(c, resps) {
       got = hasDefault ? show(resolved(opt), names) : '«none»';
     }
     obsAll[k] = got;
-    if (stable(expected) !== stable(got)) viol.push({ clause: 'default-value', diff: `default:${!has ? 'unexpected' : got === '«none»' ? 'lost' : 'different'}${PROPS[p].kind === 'fn' ? '(function prop)' : ''}`, msg: `prop ${k}: Vue resolves ${JSON.stringify(got)} but the written default is ${JSON.stringify(expected)}`, expected, observed: got });
+    if (stable(expected) !== stable(got)) viol.push({ clause: 'default-value', diff: `default:${!has ? 'unexpected' : got === '«none»' ? 'lost' : 'different'}${PROPS[p].kind !== 'val' ? '(function prop)' : ''}`, msg: `prop ${k}: Vue resolves ${JSON.stringify(got)} but the written default is ${JSON.stringify(expected)}`, expected, observed: got });
   }
   const uniq = new Map();
   for (const v of viol) if (!uniq.has(v.clause + v.diff)) uniq.set(v.clause + v.diff, v);
@@ -156,7 +163,7 @@ function spaces(tier) {
     {
       name: 'L:two-components',
       bounds: { note: 'a component with static defaults followed (optionally after one with a dynamic default) by a component without any default that shares the prop names' },
-      *gen() { for (const props of propSets(2)) for (const mid of ['none', 'dynamic']) { const forms = props.map((p) => (PROPS[p].kind === 'fn' ? 'method' : PROPS[p].lit ? 'literal' : 'identExpr')); yield { sp: 'L', props, forms, mid }; } },
+      *gen() { for (const props of propSets(2)) for (const mid of ['none', 'dynamic']) { const forms = props.map((p) => (PROPS[p].kind === 'fn' ? 'method' : PROPS[p].kind === 'fnUnion' ? 'fnIdent' : PROPS[p].lit ? 'literal' : 'identExpr')); yield { sp: 'L', props, forms, mid }; } },
     },
   ];
 }
@@ -166,7 +173,7 @@ function* shrink(c) {
   for (let i = 0; i < c.props.length; i++) if (c.props.length > 1) yield Object.assign({}, c, { props: c.props.slice(0, i).concat(c.props.slice(i + 1)), forms: c.forms.slice(0, i).concat(c.forms.slice(i + 1)) });
   if (c.extra) yield Object.assign({}, c, { extra: false });
   for (let i = 0; i < c.forms.length; i++) if (c.forms[i] !== 'absent') yield Object.assign({}, c, { forms: c.forms.slice(0, i).concat(['absent'], c.forms.slice(i + 1)) });
-  for (let i = 0; i < c.props.length; i++) { const alt = PROPS[c.props[i]].kind === 'fn' ? 'f' : 'a'; if (c.props[i] !== alt && !c.props.includes(alt) && applicable(alt, c.forms[i])) yield Object.assign({}, c, { props: c.props.slice(0, i).concat([alt], c.props.slice(i + 1)) }); }
+  for (let i = 0; i < c.props.length; i++) { const alt = PROPS[c.props[i]].kind === 'fn' ? 'f' : PROPS[c.props[i]].kind === 'fnUnion' ? 'fu' : 'a'; if (c.props[i] !== alt && !c.props.includes(alt) && applicable(alt, c.forms[i])) yield Object.assign({}, c, { props: c.props.slice(0, i).concat([alt], c.props.slice(i + 1)) }); }
 }
 
 module.exports = {
